@@ -929,7 +929,7 @@ func (cs *ContractSet) parseFile(fname, data string) error {
 				cur.Exit = append(cur.Exit, gs)
 			default:
 				a := strings.TrimSuffix(fs[0], ":")
-				if strings.HasPrefix(a, "before@") || strings.HasPrefix(a, "after@") {
+				if strings.HasPrefix(a, "before@") || strings.HasPrefix(a, "after@") || strings.HasPrefix(a, "send@") {
 					if cur.CallGhost == nil {
 						cur.CallGhost = map[string][]GhostStmt{}
 					}
